@@ -55,6 +55,9 @@ func (q *MultiOpQueryer) Subscribe(req *requests.Request, closeCh <-chan struct{
 
 	go func() {
 		defer func() {
+			// the consumer closes resCh when it stops listening: a response which was
+			// being handed over at that moment must not take the whole process down
+			recover()
 			defer func() {
 				recover()
 			}()
